@@ -73,6 +73,7 @@ def register(w):
     })
     C.register(w, {
         "key": f"{F}::remove_empty_metadata._cleaner.generic_visit",
+        "parallel": 6,
         "self": f"{F}::remove_empty_metadata._cleaner",
         "params": {"node": "py"},
         "requires": ["is_node(node)", "wf(node)", "md_wf(node)"],
